@@ -21,6 +21,7 @@ CLAIM = (
     "read on the unchanged tree (baselines/skips.json): a new skip means elements that were handled are no longer handled."
     " LIT-KW: duplicate_curly_brackets / in_backticks / without_enclosing are passed to a literal function only inside "
     "transform_joined_str (a stand-alone literal emitted with them denotes another text)."
+    " TAINT (shared with C20) and CHR (shared with C19): free text of the meta-model (XML namespace, literal values) reaches the generated (de)serializers only through the Python literal functions, and these denote their argument."
 )
 NOTE = (
     "Not decided: round-trip equality and `only the de-serialization error is raised` - both are properties of the execution of the "
